@@ -20,7 +20,7 @@ theorem step_attr_attrL (tk : Tokenizer) (pos : Nat) (lt : LToken) (p l v sp : S
     (ht : lt.token = .attribute p l v sp) (hok : lt.okL = true) (hlead : lt.lead ≠ [])
     (hst : tk.state = .attributes) (hs : tk.stream = ⟨pos, renderLT lt ++ r⟩) :
     ∃ t' pos', parseNextImpl tk = .token t' { tk with stream := ⟨pos', r⟩ } ∧
-      t'.erase = lt.token.erase := by
+      t'.ReadAs lt.token := by
   obtain ⟨tok, w, e1, e2, b⟩ := lt
   simp only at ht hlead
   subst ht
@@ -42,7 +42,7 @@ theorem step_attr_openL (tk : Tokenizer) (pos : Nat) (lt : LToken) (sp : StrSpan
     (hst : tk.state = .attributes) (hs : tk.stream = ⟨pos, renderLT lt ++ r⟩) :
     ∃ t' pos', parseNextImpl tk = .token t'
         { tk with stream := ⟨pos', r⟩, depth := tk.depth + 1, state := .elements } ∧
-      t'.erase = lt.token.erase := by
+      t'.ReadAs lt.token := by
   obtain ⟨tok, w, e1, e2, b⟩ := lt
   simp only at ht
   subst ht
@@ -51,7 +51,7 @@ theorem step_attr_openL (tk : Tokenizer) (pos : Nat) (lt : LToken) (sp : StrSpan
   have hs' : tk.stream = ⟨pos, w ++ '>' :: r⟩ := by
     rw [hs]; simp [renderLT, LToken.body, renderToken]
   have hend : tk.stream.atEnd = false := by rw [hs']; exact atEnd_app_cons _ _ _ _
-  refine ⟨.elementEnd .open sp', pos', ?_, rfl⟩
+  refine ⟨.elementEnd .open sp', pos', ?_, rfl, rfl⟩
   unfold parseNextImpl
   simp only [hend, Bool.false_eq_true, if_false, hst]
   rw [hs', hp]
@@ -62,7 +62,7 @@ theorem step_attr_emptyL (tk : Tokenizer) (pos : Nat) (lt : LToken) (sp : StrSpa
     (hst : tk.state = .attributes) (hs : tk.stream = ⟨pos, renderLT lt ++ r⟩) :
     ∃ t' pos', parseNextImpl tk = .token t'
         { tk with stream := ⟨pos', r⟩, state := stateAfterTag tk.depth tk.fragment } ∧
-      t'.erase = lt.token.erase := by
+      t'.ReadAs lt.token := by
   obtain ⟨tok, w, e1, e2, b⟩ := lt
   simp only at ht
   subst ht
@@ -71,7 +71,7 @@ theorem step_attr_emptyL (tk : Tokenizer) (pos : Nat) (lt : LToken) (sp : StrSpa
   have hs' : tk.stream = ⟨pos, w ++ '/' :: '>' :: r⟩ := by
     rw [hs]; simp [renderLT, LToken.body, renderToken]
   have hend : tk.stream.atEnd = false := by rw [hs']; exact atEnd_app_cons _ _ _ _
-  refine ⟨.elementEnd .empty sp', pos', ?_, rfl⟩
+  refine ⟨.elementEnd .empty sp', pos', ?_, rfl, rfl⟩
   unfold parseNextImpl
   simp only [hend, Bool.false_eq_true, if_false, hst]
   rw [hs', hp]
@@ -85,7 +85,7 @@ theorem step_el_closeL (tk : Tokenizer) (pos : Nat) (lt : LToken) (p l sp : StrS
     ∃ t' pos', parseNextImpl tk = .token t'
         { tk with stream := ⟨pos', r⟩, depth := tk.depth - 1,
                   state := stateAfterTag (tk.depth - 1) tk.fragment } ∧
-      t'.erase = lt.token.erase := by
+      t'.ReadAs lt.token := by
   obtain ⟨tok, w, e1, e2, b⟩ := lt
   simp only at ht
   subst ht
@@ -162,14 +162,14 @@ theorem step_el_piL (tk : Tokenizer) (pos : Nat) (lt : LToken) (t : StrSpan) (c 
     (sp : StrSpan) (r : Str) (ht : lt.token = .pi t c sp) (hok : lt.okL = true)
     (hst : tk.state = .elements) (hs : tk.stream = ⟨pos, lt.body ++ r⟩) :
     ∃ t' pos', parseNextImpl tk = .token t' { tk with stream := ⟨pos', r⟩ } ∧
-      t'.erase = lt.token.erase := by
+      t'.ReadAs lt.token := by
   have hx := pi_not_xmldeclL lt t c sp r ht hok
   obtain ⟨t', pos', hp, he⟩ := parsePI_L pos lt t c sp r ht hok
   obtain ⟨rest, hb, _⟩ := pi_body lt t c sp ht hok
   have hend : tk.stream.atEnd = false := by rw [hs, hb]; rfl
   have h1 : tk.stream.curr? = some '<' := by rw [hs, hb]; rfl
   have h2 : tk.stream.next? = some '?' := by rw [hs, hb]; rfl
-  refine ⟨t', pos', ?_, he⟩
+  refine ⟨t', pos', ?_, Token.readAs_of_erase he (by rw [ht]; rfl)⟩
   unfold parseNextImpl
   simp only [hend, Bool.false_eq_true, if_false, hst, h1, h2, beq_self_eq_true, if_true,
     show ('?' == '!') = false from by decide, startsWith]
@@ -198,13 +198,13 @@ theorem step_misc_piL (tk : Tokenizer) (pos : Nat) (lt : LToken) (t : StrSpan) (
     (sp : StrSpan) (r : Str) (ht : lt.token = .pi t c sp) (hok : lt.okL = true)
     (hst : MiscState tk.state) (hs : tk.stream = ⟨pos, lt.body ++ r⟩) :
     ∃ t' pos', parseNextImpl tk = .token t' { tk with stream := ⟨pos', r⟩ } ∧
-      t'.erase = lt.token.erase := by
+      t'.ReadAs lt.token := by
   obtain ⟨rest, hb, _⟩ := pi_body lt t c sp ht hok
   have hend : tk.stream.atEnd = false := by rw [hs, hb]; rfl
   have hd : tk.stream.startsWith litDoctype = false := by
     rw [hs, hb]; simp [startsWith, litDoctype, List.isPrefixOf_cons_cons]
   obtain ⟨t', pos', he, hm⟩ := miscStep_piL tk pos lt t c sp r ht hok hs
-  refine ⟨t', pos', ?_, he⟩
+  refine ⟨t', pos', ?_, Token.readAs_of_erase he (by rw [ht]; rfl)⟩
   unfold parseNextImpl
   rcases hst with h | h | h <;>
     simp only [hend, Bool.false_eq_true, if_false, h, hd, hm]
